@@ -271,6 +271,8 @@ TRANSPARENT = {
     "std::vec::Vec::iter",
     "core::slice::iter",
     "std::slice::to_vec",
+    "std::array::as_slice",
+    "core::array::as_slice",
     "core::str::as_bytes",
     # read-and-reset helpers: the call's value is the previous value of the place (the place's
     # new value is modelled in Terms._from_def)
